@@ -22,7 +22,7 @@ EXPLANATION = (
 ASSUMPTIONS = ["std::atomic<thread_state>::compare_exchange_strong is atomic", "work_items_/new_tasks_/terminated_items_ deliver each pushed element to one pop (C17)",
                "on_start_thread runs on the owning worker before the pool's start-up barrier releases any work (reserve() calls exempt from R6)"]
 THOROUGH_CONFIGS = [["-UNDEBUG", "-DPIKA_DEBUG"], ["-DPIKA_HAVE_THREAD_QUEUE_WAITTIME"]]
-FLOORS = {"C01.R1": 8, "C01.R2": 6, "C01.R3": 8, "C01.R4": 24, "C01.R5": 12, "C01.R6": 10, "C01.R7": 9, "C01.R8": 2, "C01.R9": 1, "C01.R10": 6, "C01.R11": 4, "C01.R12": 20, "C01.R13": 4}
+FLOORS = {"C01.R1": 8, "C01.R2": 6, "C01.R3": 8, "C01.R4": 24, "C01.R5": 12, "C01.R6": 10, "C01.R7": 9, "C01.R8": 2, "C01.R9": 1, "C01.R10": 6, "C01.R11": 4, "C01.R12": 20, "C01.R13": 4, "C01.R14": 3}
 
 TSS = "pika::threads::detail::thread_schedule_state"
 TD = "pika::threads::detail::thread_data"
@@ -514,6 +514,58 @@ def run(rep, tier):
                         "there are never dequeued - their bodies are never entered" % (m, "only on paths where %s is true" % steal if mine else "nowhere"))
     if n13 < 4:
         raise AnalysisBroken("C01.R13 examined only %d (scheduler, queue member) pairs" % n13)
+
+    # ---- R14: staged tasks are converted even at the thread-object cap
+    rep.rule("C01.R14", "K7 (evaluated): thread_queue::add_new_always converts staged tasks (reaches add_new) whenever the thread map has room, and also "
+             "when it is at its cap but nothing is pending - otherwise a queue whose ~max_thread_count live tasks are all suspended never starts the "
+             "staged tasks they wait for (bodies never entered)")
+    from engine.kinds import eval_walk as _ew, expand_locals as _xl
+    from engine.core import subexprs as _sx
+    n14 = 0
+    for fn in [f for f in tqs if f.qname.endswith("::add_new_always")]:
+        # names by role: the local initialised from thread_map_.size(); the pending container / its counter
+        cnt = [e["var"] for _, _, e in fn.all_events() if e.get("k") == "decl" and e.get("init") is not None and "thread_map_.size()" in T(e["init"])]
+        conv = [(b, i, e) for b, i, e in fn.all_events() if e.get("k") == "call" and callee_short(e) == "add_new"]
+        if not conv:
+            rep.bad("C01.R14", fn, fn.loc, "never-converts", "add_new_always never calls add_new: staged tasks are never converted")
+            continue
+        for name, count, pending_empty, must in (("room in the thread map", 0, False, True), ("room in the thread map, nothing pending", 0, True, True),
+                                                 ("map at its cap, nothing pending", 1000, True, True)):
+            env = {"this->parameters_.max_thread_count_": 1000, "this->parameters_.min_add_new_count_": 10, "this->parameters_.max_add_new_count_": 10}
+            for c_ in cnt:
+                env[c_] = count
+            # every expression that asks the pending queue: empty()/size()/counter loads
+            for _, _, e in fn.all_events():
+                for x in _sx(e.get("e") if e.get("k") in ("read", "return") else e, lambda y: isinstance(y, dict) and y.get("k") == "call"):
+                    r_ = P(x.get("recv")) if x.get("recv") is not None else ""
+                    if "work_items_" in r_:
+                        if callee_short(x) == "empty":
+                            env[T(x)] = pending_empty
+                        elif callee_short(x) in ("size", "load", "size_approx") or x.get("op") in ("cast",):
+                            env[T(x)] = 0 if pending_empty else 5
+                    if "thread_map_" in r_ and callee_short(x) == "size":
+                        env[T(x)] = count
+            for bid, blk in fn.blocks.items():
+                if blk.cond is not None:
+                    for x in _sx(blk.cond, lambda y: isinstance(y, dict) and y.get("k") == "call"):
+                        r_ = P(x.get("recv")) if x.get("recv") is not None else ""
+                        if "work_items_" in r_:
+                            env[T(x)] = pending_empty if callee_short(x) == "empty" else (0 if pending_empty else 5)
+            res = _ew(fn, fn.entry, tree_env=env)
+            n14 += 1
+            missed = [(evs, end) for evs, end in res if not any(e is conv[0][2] or (e.get("k") == "call" and callee_short(e) == "add_new") for _, _, e in evs) and end in ("return", "exit")]
+            undecided = len(res) > 4
+            if undecided:
+                raise AnalysisBroken("add_new_always: scenario '%s' not decided (%d paths)" % (name, len(res)))
+            if missed:
+                last = missed[0][0][-1][2] if missed[0][0] else {}
+                rep.bad("C01.R14", fn, loc_of(last) if last.get("loc") else fn.loc, "staged-not-converted:" + name.replace(" ", "-"),
+                        "add_new_always returns without converting staged tasks in the situation '%s' (thread map %d of 1000, pending queue %s): "
+                        "tasks that are still staged are never started although nothing else can run" % (name, count, "empty" if pending_empty else "not empty"))
+            else:
+                rep.ok("C01.R14", fn, "'%s': add_new is reached on every path" % name)
+    if n14 < 3:
+        raise AnalysisBroken("C01.R14: add_new_always not evaluated")
 
     # ---- R12: the containers the work queues are built on (the same rules decide C17)
     import_rules(rep, tier, "C17", ("C17.R4", "C17.R5", "C17.R7"), "C01.R12",
